@@ -30,6 +30,11 @@ def field_of_receiver(b, op):
 
 
 def run(R):
+    _run(R)
+    r7(R)
+
+
+def _run(R):
     prog = R.prog
     R.rule("C10-R1", "one critical section: the processor acquires the shared store once; remove/add/materialize/execute_query "
                      "all run under that one guard (dominated by the acquisition, not reachable from its release)")
@@ -360,3 +365,62 @@ def _same_item(b, op1, op2):
         return l
     a, c = root(op1), root(op2)
     return a is not None and a == c
+
+
+# ---------------------------------------------------------------- R7 every firing is processed (multi-thread worker)
+
+def r7(R):
+    prog = R.prog
+    R.rule("C10-R7", "every firing is processed: the worker thread of a window hands EVERY content it receives to the window processor, in "
+                     "arrival order - one blocking receive per iteration, no second / non-blocking receive that could coalesce or drop "
+                     "firings, no path from a received content back to the receive that bypasses the processor (otherwise multi-thread "
+                     "mode emits a different sequence than single-thread mode under load)")
+    workers = []
+    for b in prog.bodies.values():
+        if b.crate != "kolibrie" or not b.file.endswith("rsp_engine.rs") or not b.is_closure:
+            continue
+        if "register_windows" not in b.key:
+            continue
+        names = [c.name() for c in b.calls()]
+        if any(n in names for n in ("recv", "try_recv", "recv_timeout", "try_iter", "iter")) and b.loops():
+            if "std::sync::mpsc" in " ".join((c.pretty or "") for c in b.calls()):
+                workers.append(b)
+    R.floor("C10-R7", "window worker loops", len(workers), 1)
+    for b in workers:
+        R.saw(b)
+        rec = [c for c in b.calls() if "mpsc" in (c.pretty or "") and c.name() in ("recv", "try_recv", "recv_timeout", "try_iter", "iter", "recv_deadline")]
+        kinds = sorted({c.name() for c in rec})
+        R.ob("C10-R7", "one-blocking-receive", "the worker receives with exactly one blocking recv() (found %s)" % [c.name() for c in rec],
+             len(rec) == 1 and kinds == ["recv"], where=b.where(rec[0].ln if rec else None),
+             detail=None if (len(rec) == 1 and kinds == ["recv"]) else "a second or non-blocking receive lets the worker skip ahead to a newer window content: "
+             "firings are dropped under load, in multi-thread mode only")
+        if len(rec) != 1:
+            continue
+        r = rec[0]
+        from lib import guards as G
+        ok_t = None
+        for bb, t in b.terms():
+            if t["t"] == "switch":
+                for tgt, cd in G.edge_conditions(b, bb):
+                    if cd.get("kind") == "variant" and cd["pl"]["l"] == r.dest["l"] and cd.get("variant") == "Ok":
+                        ok_t = tgt
+        procs = [c for c in b.calls() if (c.callee or "").rsplit("::", 1)[-1] in ("call_mut", "call", "call_once") and ok_t is not None and (c.bb == ok_t or b.dominates(ok_t, c.bb))]
+        R.ob("C10-R7", "processor-called", "the received content is passed to the window processor", len(procs) >= 1 and ok_t is not None, where=b.where(r.ln))
+        if procs and ok_t is not None:
+            # payload identity: the argument tuple holds the Ok payload of the receive
+            pay = False
+            for c in procs:
+                o = b.origin(c.args[1], stop_named=False) if len(c.args) > 1 else ("?",)
+                rv = o[1] if o[0] == "rv" else None
+                if rv is None and o[0] == "place":
+                    d = b.single_def(o[1]["l"])
+                    rv = d[3] if d and d[0] == "assign" else None
+                if rv is not None and rv["rv"] == "aggregate":
+                    for op in rv["ops"]:
+                        oo = b.origin(op, stop_named=False)
+                        if oo[0] == "place" and oo[1]["l"] == r.dest["l"]:
+                            pay = True
+            R.ob("C10-R7", "same-content", "what is processed is the content that was received", pay, where=b.where(procs[0].ln))
+            h = [hh for hh, blk in b.loops() if r.bb in blk]
+            skip = bool(h) and (r.bb in b.reach_from([ok_t], avoid={c.bb for c in procs}))
+            R.ob("C10-R7", "no-skip", "no path from a received content back to the receive bypasses the processor", not skip, where=b.where(r.ln))
